@@ -29,6 +29,12 @@ theorem error_reporting_as_modelled :
     Generated.Visitors.srcParseCypherInner = expectedParseCypherInner :=
   ⟨rfl, rfl, rfl, rfl⟩
 
+/-- no visitor calls a method directly on the result of a single-child accessor of a generated rule context (`ctx.DecimalInteger().GetText()`,
+`ctx.OC_Variable().GetText()` …): such an accessor returns nil when the child is absent — optional in the grammar, or missing in a tree
+ANTLR's error recovery built — and the call would panic. The walk theorems cover the listener PROTOCOL on every tree; this covers the
+accessor-nil pattern inside method bodies; other body-level panics remain searched only. -/
+theorem accessor_chains_guarded : Generated.Visitors.accessorChains = [] := by decide +kernel
+
 /-- the extractor understood every stack action: all visitor structs embed exactly BaseVisitor (method lookup = own else
 Base), nobody overrides the generic callbacks, every pushed type and every guard was resolved; rule tables agree -/
 theorem table_shape :
